@@ -468,6 +468,154 @@ func c10ColdBurst(c *caseCtx) {
 	c.distinct("cold|" + method)
 }
 
+// large bursts: a fresh (worker) process, 16 goroutines released together on LARGE requests of one kind - size-triggered
+// strategies (worker goroutines, pooled buffers, throttles for expensive validations) only exist above some size
+func c10LargeBurst(c *caseCtx) {
+	kind := []int{0, 1, 0, 2}[c.idx%4]
+	G := 16
+	var gs []*genReq
+	switch kind {
+	case 0:
+		// ELECTRE III, 64+ alternatives of three to five replicated kinds (whole groups of indistinguishable alternatives tie
+		// at every cut level), small integer performances, q / p / v thresholds
+		for i := 0; i < 10*G; i++ {
+			n := 64 + c.rng.Intn(20)
+			nc := 2 + c.rng.Intn(2)
+			nk := 3 + c.rng.Intn(3)
+			var crit []interface{}
+			ec := M{}
+			g := &genReq{method: "electreIII"}
+			for j := 0; j < nc; j++ {
+				id := fmt.Sprintf("c%d", j)
+				crit = append(crit, M{"id": id, "type": "gain"})
+				g.crits = append(g.crits, critSpec{id: id})
+				q := float64(1 + c.rng.Intn(2))
+				ec[id] = M{"k": float64(1 + c.rng.Intn(3)), "q": M{"b": q}, "p": M{"b": q + float64(1+c.rng.Intn(3))}, "v": M{"b": q + float64(4+c.rng.Intn(4))}}
+			}
+			kinds := make([]M, nk)
+			for k := range kinds {
+				kinds[k] = M{}
+				for j := 0; j < nc; j++ {
+					kinds[k][fmt.Sprintf("c%d", j)] = float64(c.rng.Intn(7))
+				}
+			}
+			var alts, chose []interface{}
+			for a := 0; a < n; a++ {
+				cv := M{}
+				for k, v := range kinds[a%nk] {
+					cv[k] = v
+				}
+				id := fmt.Sprintf("a%d_%02d", a%nk, a/nk)
+				alts = append(alts, M{"id": id, "criteria": cv})
+				chose = append(chose, id)
+				g.altIds = append(g.altIds, id)
+			}
+			mp := M{"electreCriteria": ec}
+			if c.rng.Intn(4) == 0 {
+				mp["electreDistillation"] = M{"a": -float64(c.rng.Intn(3)) / 16, "b": float64(2+c.rng.Intn(4)) / 16}
+			}
+			g.M = M{"preferenceFunction": "electreIII", "knownAlternatives": alts, "choseToMake": chose, "criteria": crit, "methodParameters": mp}
+			gs = append(gs, g, g) // the same request twice: identical requests in flight together
+		}
+	case 1:
+		// value-based methods with 64..160 alternatives
+		for i := 0; i < 2*G; i++ {
+			m := []string{"weightedSum", "owa", "choquetIntegral", "majorityHeuristic"}[i%4]
+			n := 64 + c.rng.Intn(97)
+			gs = append(gs, genRequest(c.rng, genOpts{method: m, minAlt: n, maxAlt: n, minCrit: 2, maxCrit: 4, allCons: 1, nBiases: c.rng.Intn(2), allFire: true}))
+		}
+	default:
+		// Choquet with 13 criteria (8191 capacities): refused ones (a capacity is missing) next to complete ones
+		for i := 0; i < G; i++ {
+			q := bigChoquet(13, true)
+			g := &genReq{M: q, method: "choquetIntegral"}
+			if i%3 != 2 {
+				delete(mpOf(q)["weights"].(M), fmt.Sprintf("k%d,k7,k11", i%5))
+				g.invalid = true
+			}
+			gs = append(gs, g)
+		}
+	}
+	bodies := make([][]byte, len(gs))
+	for i, g := range gs {
+		bodies[i] = g.body()
+	}
+	prefix := filepath.Join(*fWorkDir, "race-harness")
+	before, _ := raceReports(fmt.Sprintf("%s.%d", prefix, os.Getpid()))
+	res := make([]decision, len(bodies))
+	done := make(chan struct{})
+	var wg sync.WaitGroup
+	gate := make(chan struct{})
+	for g := 0; g < G; g++ {
+		wg.Add(1)
+		go func(g int) {
+			defer wg.Done()
+			<-gate
+			for k := g; k < len(bodies); k += G {
+				d := decide(bodies[k], false)
+				d.Trace, d.Choice, d.View, d.dm = nil, nil, nil, nil
+				res[k] = d
+			}
+		}(g)
+	}
+	close(gate)
+	go func() { wg.Wait(); close(done) }()
+	select {
+	case <-done:
+	case <-timeAfterMs(150000):
+		// nothing of this size takes minutes: ask the runtime what the deciding goroutines are doing
+		buf := make([]byte, 8<<20)
+		buf = buf[:runtime.Stack(buf, true)]
+		parked, busy := "", false
+		re := regexp.MustCompile(`^goroutine \d+ \[([^\],]+)(?:, (\d+) minutes)?`)
+		for _, b := range strings.Split(string(buf), "\n\n") {
+			m := re.FindStringSubmatch(strings.TrimSpace(b))
+			if m == nil || !strings.Contains(b, "RealDecisionMaker/lib/") {
+				continue
+			}
+			switch m[1] {
+			case "running", "runnable", "syscall":
+				busy = true
+			default:
+				if m[2] != "" && parked == "" {
+					parked = b
+					if len(parked) > 1800 {
+						parked = parked[:1800]
+					}
+				}
+			}
+		}
+		if parked != "" && !busy {
+			c.violate("blocked", "decisions started together never return: their goroutines are parked inside the library and nothing of it is running", M{"kind": kind, "goroutine": parked})
+		} else {
+			c.inconclusive("a large burst did not finish within the watchdog but its goroutines are still running")
+		}
+		return
+	}
+	c.count("evaluations", 2*len(bodies))
+	c.count("large_burst_decisions", len(bodies))
+	for k := range bodies {
+		b := decide(bodies[k], false)
+		if res[k].OK != b.OK || (b.OK && !bytes.Equal(res[k].JSON, b.JSON)) {
+			c.violate("differs-from-sequential", fmt.Sprintf("a large %s decision computed in a concurrent burst differs from the sequential one (accepted %v vs %v: %s)", gs[k].method, res[k].OK, b.OK, res[k].Err), M{"kind": kind, "alternatives": len(gs[k].altIds)})
+			return
+		}
+	}
+	after, distinct := raceReports(fmt.Sprintf("%s.%d", prefix, os.Getpid()))
+	if after > before {
+		var ex []string
+		for _, v := range distinct {
+			if len(ex) < 2 {
+				ex = append(ex, v)
+			}
+		}
+		c.violate("data-race", fmt.Sprintf("the race detector reported %d data races in a burst of %d simultaneous large decisions (kind %d)", after-before, G, kind), M{"reports": ex})
+		return
+	}
+	c.count("large_bursts", 1)
+	c.distinct(fmt.Sprintf("large|%d", kind))
+}
+
 func init() {
 	register(&propDef{
 		id: "C10",
@@ -485,6 +633,8 @@ func init() {
 				floors: map[string]int64{"rounds": 3, "overlapping_pairs": 1500, "identical_request_overlaps": 100, "concurrent_requests": 1800}},
 			{name: "coldBursts", n: tierN(28, 280), unit: 1, run: c10ColdBurst, floors: map[string]int64{"cold_bursts": 28},
 				note: "each case is a fresh process: 24 goroutines released together on 72 requests of one method (first uses of every shared object race if unsynchronised)"},
+			{name: "largeBursts", n: tierN(8, 40), unit: 1, run: c10LargeBurst, floors: map[string]int64{"large_bursts": 8},
+				note: "each case is a fresh process: 16 goroutines released together on large requests of one kind - ELECTRE III with 64+ alternatives of four replicated kinds, value-based methods with 64..160 alternatives, Choquet with 13 criteria (refused and complete requests mixed)"},
 			{name: "inProc", n: tierN(2, 10), unit: 1, run: c10InProc, floors: map[string]int64{"inproc_rounds": 2, "inproc_concurrent_decisions": 1000}},
 		},
 	})
